@@ -112,6 +112,48 @@ class ObResult(dict):
     pass
 
 
+_MUL = z3.Function("nl!mul", z3.RealSort(), z3.RealSort(), z3.RealSort())
+_DIV = z3.Function("nl!div", z3.RealSort(), z3.RealSort(), z3.RealSort())
+
+
+def abstract_nonlinear(formulas):
+    """Replace products / quotients of non-constant reals by applications of uninterpreted functions (arguments ordered, so
+    commutativity is kept).  Every model of real arithmetic is a model of the abstraction, hence `unsat` of the abstraction
+    proves `unsat` of the original; `sat` of the abstraction means nothing (treated as unknown by the caller)."""
+    memo = {}
+
+    def is_num(t):
+        return z3.is_rational_value(t) or z3.is_int_value(t) or z3.is_algebraic_value(t)
+
+    def rw(t):
+        i = t.get_id()
+        if i in memo:
+            return memo[i]
+        if z3.is_quantifier(t) or not z3.is_app(t):
+            memo[i] = t
+            return t
+        ch = [rw(c) for c in t.children()]
+        k = t.decl().kind()
+        out = None
+        if k == z3.Z3_OP_MUL and z3.is_real(t):
+            nums = [c for c in ch if is_num(c)]
+            rest = sorted([c for c in ch if not is_num(c)], key=lambda c: c.get_id())
+            if len(rest) >= 2:
+                acc = rest[0]
+                for c in rest[1:]:
+                    acc = _MUL(acc, c)
+                out = acc
+                for n in nums:
+                    out = n * out
+        elif k == z3.Z3_OP_DIV and z3.is_real(t) and not is_num(ch[1]):
+            out = _DIV(ch[0], ch[1])
+        if out is None:
+            out = t.decl()(*ch) if ch else t
+        memo[i] = out
+        return out
+    return [rw(f) for f in formulas]
+
+
 def close_reductions(ctx, base, timeout_ms=5000, max_rounds=4):
     """Congruence for reductions over symbolic extents.  A reduction is an uninterpreted constant plus (kind, extent, body).
     Lemmas added (each justified by a discharged side query at fresh indices):
@@ -195,16 +237,16 @@ class Session:
         return r
 
     # -- proving ---------------------------------------------------------------------------------
-    def prove(self, oid, ctx, goal, hyps=(), function=None, replay=None, what=None, holes=None, timeout_ms=None):
+    def prove(self, oid, ctx, goal, hyps=(), function=None, replay=None, what=None, holes=None, timeout_ms=None, nl_budget_ms=None):
         """Obligation: (definitional axioms of ctx /\\ hyps) => goal, for all values of the free symbols.
         holes: optional {z3 key constant: [candidate key terms]} — existential key holes (DESIGN 1.3)."""
         t0 = time.time()
         try:
-            return self._prove(oid, ctx, goal, hyps, function, replay, what, holes, timeout_ms or self.timeout_ms)
+            return self._prove(oid, ctx, goal, hyps, function, replay, what, holes, timeout_ms or self.timeout_ms, nl_budget_ms)
         except ir.Unsupported as e:
             return self._record(oid, "undecided", reason=f"unsupported: {e}", function=function, seconds=time.time() - t0)
 
-    def _prove(self, oid, ctx, goal, hyps, function, replay, what, holes, timeout_ms):
+    def _prove(self, oid, ctx, goal, hyps, function, replay, what, holes, timeout_ms, nonlinear_first_budget_ms=None):
         t0 = time.time()
         goal = ir.zbool(goal)
         hyps = [ir.zbool(h) for h in hyps]
@@ -227,8 +269,12 @@ class Session:
             subst = [(h, c) for (h, _), c in zip(hole_list, combo)]
             g = z3.substitute(goal, *subst) if subst else goal
             b = [z3.substitute(f, *subst) for f in base] if subst else base
-            st, model, dt, solver = _solve_z3(b + [z3.Not(g)], timeout_ms)
+            st, model, dt, solver = _solve_z3(b + [z3.Not(g)], timeout_ms if not nonlinear_first_budget_ms else min(timeout_ms, nonlinear_first_budget_ms))
             backend = "z3-" + z3.get_version_string()
+            if st.startswith("unknown"):
+                st3, _, dt3, _ = _solve_z3(abstract_nonlinear(b + [z3.Not(g)]), timeout_ms)
+                if st3 == "unsat":
+                    st, dt, backend = "unsat", dt + dt3, backend + " (nonlinear products abstracted to uninterpreted functions)"
             if st.startswith("unknown"):
                 st2, _, dt2 = _solve_cvc5(b + [z3.Not(g)], timeout_ms)
                 if st2 == "unsat":
